@@ -103,8 +103,10 @@ def rfcCause : Event → Option State → Option State → Bool
   -- Otherwise (no ACK), drop the segment and return"
   | .segment ack rst _ _, some .SynSent, none => rst && ack
   -- fourth, SYN: "If SND.UNA > ISS (our SYN has been ACKed), change the connection state to
-  -- ESTABLISHED … Otherwise, enter SYN-RECEIVED"
-  | .segment ack rst syn _, some .SynSent, some .Established => syn && ack && !rst
+  -- ESTABLISHED … Otherwise, enter SYN-RECEIVED".  The RFC's condition is on SND.UNA, not on the
+  -- ACK bit of this segment, so the label only asks for the SYN (and no RST: the second step
+  -- returns before the fourth)
+  | .segment _ rst syn _, some .SynSent, some .Established => syn && !rst
   | .segment _ rst syn _, some .SynSent, some .SynReceived => syn && !rst
   -- 3.10.7.4 second, RST: every state → CLOSED (or back to LISTEN)
   | .segment _ rst _ _, some .SynReceived, none => rst
